@@ -577,7 +577,7 @@ class SplitExplorer:
         the tapes of one level; claims of new states are merged deterministically in tape order."""
         import multiprocessing as mp
         import os
-        jobs = jobs or min(16, os.cpu_count() or 1)
+        jobs = jobs or int(os.environ.get("VERIF_JOBS") or 0) or min(16, os.cpu_count() or 1)
         global _WORKER_EX
         _WORKER_EX = self
         level = [[]]
@@ -588,7 +588,16 @@ class SplitExplorer:
                     pool = mp.get_context("fork").Pool(jobs)
                 except (OSError, ValueError):
                     pool = None
+            levels_after_mismatch = 0
+            self.truncated = False
             while level:
+                if self.mismatches:
+                    # shortest counterexamples come first (breadth-first); look a few levels further for
+                    # mismatches of other classes, then stop: a diverging state space need not be closed
+                    levels_after_mismatch += 1
+                    if levels_after_mismatch > 4 or self.paths + len(level) > 60000:
+                        self.truncated = True
+                        break
                 if self.paths + len(level) > self.max_paths:
                     raise AnalysisError(f"path explosion in the splitter product (> {self.max_paths} runs)")
                 snap = dict(self.visited)
